@@ -124,9 +124,11 @@ func (c *c06) check(desc string, ic issueCtx, tr *world.TokenResponse) {
 			}
 		}
 		if stored != nil {
-			remaining := stored.Exp.Sub(ic.now)
+			// the stored expiry counts from the instant of the request at which the token was created: between the
+			// request's start and its end (the same instant unless a storage call was slow)
+			remaining, least := stored.Exp.Sub(ic.now), stored.Exp.Sub(time.Now())
 			got := time.Duration(tr.ExpiresIn) * time.Second
-			if got < remaining.Truncate(time.Second) || got > (remaining+skew).Truncate(time.Second) {
+			if got < least.Truncate(time.Second) || got > (remaining+skew).Truncate(time.Second) {
 				c.viol("expires_in", site, "%s: expires_in %v, stored lifetime %v (clock skew %v)", desc, got, remaining, skew)
 			}
 			if !sameSet(tr.ScopeList(), stored.Scopes) {
@@ -203,11 +205,23 @@ func (c *c06) check(desc string, ic issueCtx, tr *world.TokenResponse) {
 	}
 	iat, _ := numClaim(p, "iat")
 	exp, _ := numClaim(p, "exp")
-	if iat != ic.now.Add(-skew).Unix() {
-		c.viol("times", site+"/iat", "%s: iat %d, expected now-skew = %d", desc, iat, ic.now.Add(-skew).Unix())
-	}
-	if exp != ic.now.Add(skew).Add(idLifetime).Unix() {
-		c.viol("times", site+"/exp", "%s: exp %d, expected now+skew+lifetime = %d", desc, exp, ic.now.Add(skew).Add(idLifetime).Unix())
+	if end := time.Now(); end.Equal(ic.now) {
+		if iat != ic.now.Add(-skew).Unix() {
+			c.viol("times", site+"/iat", "%s: iat %d, expected now-skew = %d", desc, iat, ic.now.Add(-skew).Unix())
+		}
+		if exp != ic.now.Add(skew).Add(idLifetime).Unix() {
+			c.viol("times", site+"/exp", "%s: exp %d, expected now+skew+lifetime = %d", desc, exp, ic.now.Add(skew).Add(idLifetime).Unix())
+		}
+	} else {
+		// the clock moved while the request was served (a slow storage call): the token was stamped at some instant of
+		// the request, and exp and iat still bracket exactly the configured lifetime (widened by the skew on both sides)
+		c.o.Probe("id-token-issued-by-a-slow-request")
+		if iat < ic.now.Add(-skew).Unix() || iat > end.Add(-skew).Unix() {
+			c.viol("times", site+"/iat", "%s: iat %d is outside the request [%d, %d] (less the skew)", desc, iat, ic.now.Add(-skew).Unix(), end.Add(-skew).Unix())
+		}
+		if want := int64((idLifetime + 2*skew) / time.Second); exp-iat != want {
+			c.viol("times", site+"/exp-iat", "%s: exp - iat = %ds, configured lifetime %v and skew %v demand %ds", desc, exp-iat, idLifetime, skew, want)
+		}
 	}
 	if tr.AccessToken != "" && ic.flow != "exchange-id" {
 		if ah, _ := p["at_hash"].(string); ah != leftHalfHash(ic.key.Alg, tr.AccessToken) {
@@ -263,8 +277,8 @@ func (c *c06) checkJWTAccess(desc, site string, ic issueCtx, tok string, stored 
 	if exp != stored.Exp.Unix() && exp != stored.Exp.Add(skew).Unix() {
 		c.viol("times", site+"/access-exp", "%s: JWT access token exp %d, stored %d", desc, exp, stored.Exp.Unix())
 	}
-	if iat != ic.now.Add(-skew).Unix() {
-		c.viol("times", site+"/access-iat", "%s: JWT access token iat %d, expected %d", desc, iat, ic.now.Add(-skew).Unix())
+	if end := time.Now(); iat < ic.now.Add(-skew).Unix() || iat > end.Add(-skew).Unix() {
+		c.viol("times", site+"/access-iat", "%s: JWT access token iat %d, expected %d (request ended at %d)", desc, iat, ic.now.Add(-skew).Unix(), end.Add(-skew).Unix())
 	}
 }
 
@@ -538,7 +552,7 @@ func RunC06(t *testing.T, spec kernel.Spec) *kernel.Outcome {
 		steps(o, tape, n, func(i int, ch *kernel.Chooser) string {
 			c.step = i
 			if faulty && i > 0 && ch.Bool(1, 3) {
-				k, method, kind, fired := ch.Range(1, 12), "", []string{world.FaultError, world.FaultTimeout}[ch.Int(2)], false
+				k, method, kind, fired := ch.Range(1, 12), "", []string{world.FaultError, world.FaultTimeout, world.FaultSlow, world.FaultSlow}[ch.Int(4)], false
 				if ch.Bool(1, 2) {
 					method = ch.Pick("SetUserinfoFromScopes", "SetUserinfoFromRequest", "GetPrivateClaimsFromScopes", "SigningKey", "SignatureAlgorithms", "KeySet",
 						"GetClientByClientID", "AuthRequestByCode", "AuthRequestByID", "CreateAccessToken", "CreateAccessAndRefreshTokens", "TokenRequestByRefreshToken",
